@@ -20,7 +20,7 @@ Inductive regex :=
 | RBref (n : nat)
 | RBol (multiline : bool)
 | REol (multiline : bool)
-| RWordB.
+| RWordB (neg : bool).
 
 (* A compiled pattern: AST and number of capture groups (Pattern.groups). *)
 Record cre := { re_ast : regex; re_groups : nat }.
@@ -88,31 +88,38 @@ Definition matcher := cont -> N -> option char -> str -> caps -> option result.
 Definition more_ok (mx : option N) (cnt : N) : bool :=
   match mx with Some x => cnt <? x | None => true end.
 
-(* Repetition over an abstract body matcher; [fuel] is a list whose length bounds
-   the number of iterations (subject suffix plus minimum count plus one). *)
+(* Repetition over an abstract body matcher, following sre's MAX_UNTIL / MIN_UNTIL:
+   below the minimum the body must match again; above it another iteration is tried
+   only if the position differs from the one at which the previous optional iteration
+   was started ([last], sre's last_ptr: an iteration that consumes nothing is allowed to
+   complete, with its captures, but is the last one).  [fuel] bounds the number of
+   iterations: minimum count + 2 cells followed by the subject suffix itself. *)
+Definition same_pos (last : option N) (i : N) : bool :=
+  match last with Some l => l =? i | None => false end.
+
 Fixpoint loop (mb : matcher) (k : cont) (greedy : bool) (mn : N) (mx : option N)
-         (fuel : str) (cnt : N) (i : N) (p : option char) (rest : str) (c : caps)
+         (fuel : str) (cnt : N) (last : option N) (i : N) (p : option char) (rest : str) (c : caps)
          {struct fuel} : option result :=
   match fuel with
   | [] => None
   | _ :: fuel' =>
-    (* thunks: the extracted code is strict, only the branch taken may be evaluated *)
-    let try_more := fun _ : unit =>
-      if more_ok mx cnt then
-        mb (fun j p' r' c' =>
-              if (i <? j) || (cnt <? mn)
-              then loop mb k greedy mn mx fuel' (cnt + 1) j p' r' c'
-              else None) i p rest c
-      else None in
-    let stop := fun _ : unit => if mn <=? cnt then k i p rest c else None in
-    if greedy
-    then match try_more tt with Some x => Some x | None => stop tt end
-    else match stop tt with Some x => Some x | None => try_more tt end
+    if cnt <? mn then
+      mb (fun j p' r' c' => loop mb k greedy mn mx fuel' (cnt + 1) last j p' r' c') i p rest c
+    else
+      (* thunks: the extracted code is strict, only the branch taken may be evaluated *)
+      let try_more := fun _ : unit =>
+        if more_ok mx cnt && negb (same_pos last i) then
+          mb (fun j p' r' c' => loop mb k greedy mn mx fuel' (cnt + 1) (Some i) j p' r' c') i p rest c
+        else None in
+      let stop := fun _ : unit => k i p rest c in
+      if greedy
+      then match try_more tt with Some x => Some x | None => stop tt end
+      else match stop tt with Some x => Some x | None => try_more tt end
   end.
 
-(* mn + 1 cells followed by the subject suffix itself (shared, not copied) *)
+(* mn + 2 cells followed by the subject suffix itself (shared, not copied) *)
 Definition rep_fuel (mn : N) (rest : str) : str :=
-  repeat 0 (S (N.to_nat mn)) ++ rest.
+  repeat 0 (S (S (N.to_nat mn))) ++ rest.
 
 Fixpoint exec (r : regex) (k : cont) (i : N) (p : option char) (rest : str) (c : caps)
          {struct r} : option result :=
@@ -135,7 +142,7 @@ Fixpoint exec (r : regex) (k : cont) (i : N) (p : option char) (rest : str) (c :
       | None => exec b k i p rest c
       end
   | RRep greedy mn mx b =>
-      loop (exec b) k greedy mn mx (rep_fuel mn rest) 0 i p rest c
+      loop (exec b) k greedy mn mx (rep_fuel mn rest) 0 None i p rest c
   | RGrp n b =>
       exec b (fun j p' r' c' => k j p' r' ((n, {| c_s := i; c_e := j; c_txt := rest |}) :: c')) i p rest c
   | RLook neg b =>
@@ -165,8 +172,8 @@ Fixpoint exec (r : regex) (k : cont) (i : N) (p : option char) (rest : str) (c :
           if (x =? 10) && (ml || match t with [] => true | _ => false end)
           then k i p rest c else None
       end
-  | RWordB =>
-      if xorb (is_word p) (is_word (hd_error rest)) then k i p rest c else None
+  | RWordB neg =>
+      if xorb neg (xorb (is_word p) (is_word (hd_error rest))) then k i p rest c else None
   end.
 
 Definition kfinal : cont := fun j _ _ c => Some (j, c).
